@@ -11,6 +11,7 @@ Mode E1 over programs x inputs.
 import enum
 import itertools
 import json
+from decimal import Decimal
 from typing import Annotated, Dict, List, Optional
 
 import pydantic
@@ -320,8 +321,10 @@ ANNS = {
     'dictstrint': Dict[str, int], 'model': Model, 'enum': Color,
     # constraints carried in Annotated metadata
     'posint': Annotated[int, pydantic.Field(gt=0)], 'short': Annotated[str, pydantic.StringConstraints(max_length=3)],
+    # a bound that is not a plain JSON value itself (it ends up in pydantic's error context)
+    'posdec': Annotated[Decimal, pydantic.Field(gt=Decimal('0.5'))],
 }
-PVALUES = [0, 1, -3, 1.5, 2.0, '1', 'x', 'red', 'toolong', True, None, [1, 2], ['1'], ['x'], {'k': 1}, {'k': 'v'}, {'x': 1}, {'x': '2', 'y': 'z'},
+PVALUES = [0, 1, -3, 1.5, 2.0, 0.25, '0.75', '1', 'x', 'red', 'toolong', True, None, [1, 2], ['1'], ['x'], {'k': 1}, {'k': 'v'}, {'x': 1}, {'x': '2', 'y': 'z'},
            {'x': 'bad'}, {}, {'n': 1}, {'n': -1}]
 
 
@@ -547,6 +550,8 @@ def gen_multi(ctx):
         for first in ('users', 'posts'):
             for coerce in (True, False):
                 yield dict(part='samename', disp=disp, first=first, coerce=coerce)
+        for v in ('default', 'base', 'js', 'pd'):
+            yield dict(part='variadic', disp=disp, validator=v)
         for v in ('base', 'js', 'pd'):
             for order in itertools.permutations(['who', 'ping', 'version']):
                 yield dict(part='noargs', disp=disp, validator=v, order=list(order) + list(order))
@@ -732,6 +737,46 @@ def run_noargs(case, rec):
     return tuple(obs)
 
 
+def run_variadic(case, rec):
+    """methods that also take *args / **kwargs, called WITHOUT any extras, under each validator: the fixed parameters are bound and
+    validated as usual and the variadic ones stay empty"""
+    from pjrpc.server.validators import BaseValidator
+    is_async = case['disp'] == 'async'
+    vk = case['validator']
+    log = []
+    ns = {'_log': log}
+    pre = 'async ' if is_async else ''
+    exec(pre + 'def va(a: int, *rest):\n    _log.append(("va", a, rest))\n    return [a, list(rest)]\n' +
+         pre + 'def vk(a: int, **extra):\n    _log.append(("vk", a, extra))\n    return [a, extra]\n' +
+         pre + 'def vb(a: int, *rest, **extra):\n    _log.append(("vb", a, rest, extra))\n    return [a, list(rest), extra]\n', ns)
+    schema = {'type': 'object', 'properties': {'a': {'type': 'integer'}}, 'required': ['a']}
+    d = pjrpc.server.AsyncDispatcher() if is_async else pjrpc.server.Dispatcher()
+    for name in ('va', 'vk', 'vb'):
+        f = ns[name]
+        if vk == 'js':
+            f = vjs.JsonSchemaValidator().validate(schema=schema)(f)
+        elif vk == 'pd':
+            f = vpd.PydanticValidator().validate(f)
+        elif vk == 'base':
+            f = BaseValidator().validate(f)
+        d.add(f, name=name)
+    want = {'va': (('va', 1, ()), [1, []]), 'vk': (('vk', 1, {}), [1, {}]), 'vb': (('vb', 1, (), {}), [1, [], {}])}
+    obs = []
+    for name in ('va', 'vk', 'vb'):
+        for params, good in (([1], True), ({'a': 1}, True), ([], False), ({}, False)):
+            del log[:]
+            resp = json.loads(dispatch(d, is_async, json.dumps({'jsonrpc': '2.0', 'id': 1, 'method': name, 'params': params}))[0])
+            rec.transitions += 1
+            code = resp.get('error', {}).get('code') if 'error' in resp else None
+            ok = (code is None and log == [want[name][0]] and resp.get('result') == want[name][1]) if good else (code == -32602 and not log)
+            rec.outcomes['variadic:%s' % ('ok' if ok else 'BAD')] += 1
+            if not ok:
+                rec.violation('C14:variadic methods called without extras (%s validator):%s' % (vk, 'conforming call refused / arguments changed' if good else 'non-conforming call not refused with -32602'),
+                              dict(case, method=name, params=params), expected=want[name] if good else -32602, observed=dict(response=resp, saw=repr(log)))
+            obs.append(ok)
+    return tuple(obs)
+
+
 def run_viewpred(case, rec):
     """a class based view method under a validator whose exclusion predicate also matches the (unannotated) `self`"""
     import inspect
@@ -792,7 +837,7 @@ def gen_cases(ctx):
 def run_case(case, rec):
     from mc.core import Recorder
     r = Recorder()
-    obs = {'js': run_js, 'ctx': run_ctx, 'pd': run_pd, 'multi': run_multi, 'viewpred': run_viewpred, 'samename': run_samename, 'eqsig': run_eqsig, 'noargs': run_noargs}[case['part']](case, r)
+    obs = {'js': run_js, 'ctx': run_ctx, 'pd': run_pd, 'multi': run_multi, 'viewpred': run_viewpred, 'samename': run_samename, 'eqsig': run_eqsig, 'noargs': run_noargs, 'variadic': run_variadic}[case['part']](case, r)
     r.states += 1
     r.traces += 1
     r.nontrivial_n += 1
